@@ -1066,7 +1066,6 @@ class RunBundler:
                     "and EventPageCollectable. Using device.collect_pages().",
                     obj.name,
                 )
-            self._uncollected.discard(obj)
 
         # Get the provided message stream name for singly nested scans
         message_stream_name: Optional[str] = msg.kwargs.get("name", None)
@@ -1121,6 +1120,13 @@ class RunBundler:
         indices_difference = await self._pack_external_assets(
             collected_asset_docs, message_stream_name=stream_name
         )
+
+        # Only now, with the devices actually asked for their data, do they count as
+        # collected.  (Doing this on entry lost the data of a flyer whose 'collect' was
+        # cancelled while awaiting describe_collect(): the clean-up at the end of the
+        # run then had nothing left to collect.)
+        for obj in collect_objects:
+            self._uncollected.discard(obj)
 
         # Make event pages for an object which is EventCollectable or EventPageCollectable
         # objects that are EventCollectable will now group the Events and Emit an Event Page
